@@ -28,7 +28,14 @@ theorem Co.closed : Exec.Closed Co.ops (Co.Reach 5 true) where
   compact := fun {s} hr => by show Co.Reach 5 true (Co.compact s); rw [Co.compact_eq]; exact hr
 
 theorem Pl.closed (cap : Nat) (qc : Bool) : Exec.Closed Pl.ops (Pl.Reach cap qc true) where
-  gstep := fun {_ pc _ _ _} hr hg => Pl.Reach.step pc false hr hg
+  gstep := fun {s pc _ s' nx} hr hg => by
+    simp only [Pl.ops] at hg
+    cases h : Pl.gstep s pc false with
+    | none => simp [h] at hg
+    | some p =>
+      simp [h] at hg
+      obtain ⟨rfl, _⟩ := hg
+      exact Pl.Reach.step pc false hr h
   spawn := fun {_ pc _} hr hs => Pl.Reach.spawn pc hr hs
   gate := fun hr => Pl.Reach.gate hr
   compact := fun {s} hr => by show Pl.Reach cap qc true (Pl.compact s); rw [Pl.compact_eq]; exact hr
